@@ -253,6 +253,81 @@ ben('log_lines_in_agent_signal', A, """			a.logger.Info("Sending KILL signal to 
 			a.logger.Info("KILL signal sent")
 			return""")
 
+# ---- helpers split off functions under contract (the new function has no contract)
+# 24. the precondition test of the scheduling loop becomes a method
+ben_multi('precondition_test_extracted', [(S, """			if len(node.data.Step.Preconditions) > 0 {
+				sc.logger.Infof("Checking pre conditions for \\"%s\\"", node.data.Step.Name)
+				if err := dag.EvalConditions(node.data.Step.Preconditions); err != nil {
+					sc.logger.Infof("Pre conditions failed for \\"%s\\"", node.data.Step.Name)
+					node.setStatus(NodeStatusSkipped)
+					node.SetError(err)
+					continue NodesIteration
+				}
+			}
+""", """			if !sc.preconditionsHold(node) {
+				continue NodesIteration
+			}
+""", 1), (S, """// Schedule runs the graph of steps.
+""", """// preconditionsHold evaluates the preconditions of a step; a step whose
+// preconditions fail is marked skipped.
+func (sc *Scheduler) preconditionsHold(node *Node) bool {
+	if len(node.data.Step.Preconditions) == 0 {
+		return true
+	}
+	sc.logger.Infof("Checking pre conditions for \\"%s\\"", node.data.Step.Name)
+	if err := dag.EvalConditions(node.data.Step.Preconditions); err != nil {
+		sc.logger.Infof("Pre conditions failed for \\"%s\\"", node.data.Step.Name)
+		node.setStatus(NodeStatusSkipped)
+		node.SetError(err)
+		return false
+	}
+	return true
+}
+
+// Schedule runs the graph of steps.
+""", 1)])
+# 25. isReady: the two marking statements of the failed-dependency case become a function
+ben_multi('blocking_mark_extracted', [(S, """			if !n.data.Step.ContinueOn.Failure {
+				ready = false
+				node.setStatus(NodeStatusCancel)
+				node.SetError(errUpstreamFailed)
+			}""", """			if !n.data.Step.ContinueOn.Failure {
+				ready = false
+				markBlocked(node, NodeStatusCancel, errUpstreamFailed)
+			}""", 1), (S, """func isReady(g *ExecutionGraph, node *Node) bool {""", """func markBlocked(node *Node, status NodeStatus, reason error) {
+	node.setStatus(status)
+	node.SetError(reason)
+}
+
+func isReady(g *ExecutionGraph, node *Node) bool {""", 1)])
+# 26. retention: the removal of one old file becomes a function
+ben_multi('removal_extracted', [(J, """		if info.ModTime().Before(ot) {
+			if err := os.Remove(m); err != nil {
+				lastErr = err
+			}
+		}""", """		if err := removeIfOlder(m, info, ot); err != nil {
+			lastErr = err
+		}""", 1), (J, """func (s *JSONDB) Compact(original string) error {""", """func removeIfOlder(file string, info os.FileInfo, limit time.Time) error {
+	if info.ModTime().Before(limit) {
+		return os.Remove(file)
+	}
+	return nil
+}
+
+func (s *JSONDB) Compact(original string) error {""", 1)])
+# 27. client: the fallback on a missing history becomes a function
+ben_multi('fallback_extracted', [(C, """	if errors.Is(err, persistence.ErrNoStatusDataToday) ||
+		errors.Is(err, persistence.ErrNoStatusData) {
+		return model.NewStatusDefault(workflow), nil
+	}""", """	if noStatusData(err) {
+		return model.NewStatusDefault(workflow), nil
+	}""", 1), (C, """func (e *client) GetLatestStatus(""", """func noStatusData(err error) bool {
+	return errors.Is(err, persistence.ErrNoStatusDataToday) ||
+		errors.Is(err, persistence.ErrNoStatusData)
+}
+
+func (e *client) GetLatestStatus(""", 1)])
+
 def main():
     repo = sys.argv[1] if len(sys.argv) > 1 else '/repo'
     out = os.path.join(V, 'benign')
@@ -263,13 +338,18 @@ def main():
     bad = 0
     for name, edits in B:
         diff = ''
+        files = {}
         for path, old, new, count in edits:
-            src = open(os.path.join(repo, path)).read()
+            if path not in files:
+                files[path] = open(os.path.join(repo, path)).read()
+            src = files[path]
             if src.count(old) != count:
                 print('MISMATCH %s: %r occurs %d times, expected %d' % (name, old[:40], src.count(old), count))
                 bad += 1
                 continue
-            dst = src.replace(old, new)
+            files[path] = src.replace(old, new)
+        for path, dst in files.items():
+            src = open(os.path.join(repo, path)).read()
             diff += ''.join(difflib.unified_diff(src.splitlines(True), dst.splitlines(True), 'a/' + path, 'b/' + path))
         open(os.path.join(out, name + '.patch'), 'w').write(diff)
     print('%d benign patches, %d mismatches' % (len(B), bad))
